@@ -91,7 +91,7 @@ func (c *Ctx) normalize(overlay map[string][]byte) (map[string][]byte, []string)
 	}
 	changed := false
 	closuresDone := false
-	for round := 0; round < 12; round++ {
+	for round := 0; round < 16; round++ {
 		if !closuresDone {
 			// local closures called as statements, first in the tree as written and once
 			// more after the helpers were inlined
@@ -121,7 +121,7 @@ func (c *Ctx) normalize(overlay map[string][]byte) (map[string][]byte, []string)
 			call *ast.CallExpr
 			key  string
 		}
-		perFile := map[string]*site{}
+		perFile := map[string][]*site{}
 		for _, p := range c.All {
 			if !strings.HasPrefix(p.PkgPath, M) {
 				continue
@@ -164,9 +164,7 @@ func (c *Ctx) normalize(overlay map[string][]byte) (map[string][]byte, []string)
 						if _, isNew := newFns[key]; !isNew {
 							return true
 						}
-						if s := perFile[fname]; s == nil || call.Pos() > s.call.Pos() {
-							perFile[fname] = &site{p: p, file: f, call: call, key: key}
-						}
+						perFile[fname] = append(perFile[fname], &site{p: p, file: f, call: call, key: key})
 						return true
 					})
 				}
@@ -182,80 +180,98 @@ func (c *Ctx) normalize(overlay map[string][]byte) (map[string][]byte, []string)
 		}
 		sort.Strings(fnames)
 		for _, fname := range fnames {
-			s := perFile[fname]
-			decl := newFns[s.key]
-			// the package that declares the callee
-			var dp *packagesPkg
-			for _, p := range c.All {
-				for _, f := range p.Syntax {
-					if f.Pos() <= decl.Pos() && decl.End() <= f.End() {
-						dp = p
-					}
-				}
-			}
-			if dp == nil {
-				continue
-			}
-			dfile := c.Fset.File(decl.Pos()).Name()
-			dcontent := cur[dfile]
-			if dcontent == nil {
-				dcontent, _ = os.ReadFile(dfile)
-			}
-			callee, err := inline.AnalyzeCallee(func(string, ...any) {}, c.Fset, dp.Types, dp.TypesInfo, decl, dcontent)
-			if err != nil {
-				log = append(log, fmt.Sprintf("%s: not inlinable (%v)", s.key, err))
-				base[s.key] = true // treat as given from now on
-				continue
-			}
-			caller := &inline.Caller{Fset: c.Fset, Types: s.p.Types, Info: s.p.TypesInfo, File: s.file, Call: s.call}
-			res, err := inline.Inline(caller, callee, &inline.Options{Recover: true})
-			if err != nil && strings.Contains(err.Error(), "type parameter inference") {
-				// the inliner wants the instantiation spelled out: write the inferred type
-				// arguments at the call site and let the next round inline it
-				if txt := explicitTypeArgs(s.p, s.call); txt != "" {
-					content := cur[fname]
-					if content == nil {
-						content, _ = os.ReadFile(fname)
-					}
-					off := c.Fset.Position(s.call.Fun.End()).Offset
-					if off > 0 && off <= len(content) {
-						cur[fname] = append(append(append([]byte{}, content[:off]...), []byte(txt)...), content[off:]...)
-						progressed, changed = true, true
-						log = append(log, fmt.Sprintf("instantiated %s%s at %s", s.key, txt, c.pos(s.call.Pos())))
-						continue
-					}
-				}
-			}
-			if err != nil {
-				log = append(log, fmt.Sprintf("%s at %s: inliner refused (%v)", s.key, c.pos(s.call.Pos()), err))
-				base[s.key] = true
-				continue
-			}
 			content := cur[fname]
 			if content == nil {
 				content, _ = os.ReadFile(fname)
 			}
-			// apply the edits back to front
-			edits := append([]refactorEdit{}, toEdits(c.Fset, res.Edits)...)
-			sort.Slice(edits, func(i, j int) bool { return edits[i].start > edits[j].start })
-			out := content
-			okApply := true
-			for _, e := range edits {
-				if e.start < 0 || e.end > len(out) || e.start > e.end {
-					okApply = false
-					break
+			// every site of the file whose edits do not collide with those of a site already
+			// accepted in this round (all edits refer to the same, current, content)
+			var accepted []refactorEdit
+			sites := perFile[fname]
+			sort.Slice(sites, func(i, j int) bool { return sites[i].call.Pos() > sites[j].call.Pos() })
+			for _, s := range sites {
+				decl := newFns[s.key]
+				// the package that declares the callee
+				var dp *packagesPkg
+				for _, p := range c.All {
+					for _, f := range p.Syntax {
+						if f.Pos() <= decl.Pos() && decl.End() <= f.End() {
+							dp = p
+						}
+					}
 				}
-				out = append(append(append([]byte{}, out[:e.start]...), e.text...), out[e.end:]...)
+				if dp == nil {
+					continue
+				}
+				dfile := c.Fset.File(decl.Pos()).Name()
+				dcontent := cur[dfile]
+				if dcontent == nil {
+					dcontent, _ = os.ReadFile(dfile)
+				}
+				callee, err := inline.AnalyzeCallee(func(string, ...any) {}, c.Fset, dp.Types, dp.TypesInfo, decl, dcontent)
+				if err != nil {
+					log = append(log, fmt.Sprintf("%s: not inlinable (%v)", s.key, err))
+					base[s.key] = true // treat as given from now on
+					continue
+				}
+				caller := &inline.Caller{Fset: c.Fset, Types: s.p.Types, Info: s.p.TypesInfo, File: s.file, Call: s.call}
+				res, err := inline.Inline(caller, callee, &inline.Options{Recover: true})
+				var edits []refactorEdit
+				what := ""
+				if err != nil && strings.Contains(err.Error(), "type parameter inference") {
+					// the inliner wants the instantiation spelled out: write the inferred type
+					// arguments at the call site and let the next round inline it
+					if txt := explicitTypeArgs(s.p, s.call); txt != "" {
+						off := c.Fset.Position(s.call.Fun.End()).Offset
+						edits = []refactorEdit{{start: off, end: off, text: []byte(txt)}}
+						what = fmt.Sprintf("instantiated %s%s at %s", s.key, txt, c.pos(s.call.Pos()))
+						err = nil
+					}
+				} else if err == nil {
+					edits = toEdits(c.Fset, res.Edits)
+					what = fmt.Sprintf("inlined %s at %s (literalized=%v)", s.key, c.pos(s.call.Pos()), res.Literalized)
+				}
+				if err != nil {
+					log = append(log, fmt.Sprintf("%s at %s: inliner refused (%v)", s.key, c.pos(s.call.Pos()), err))
+					base[s.key] = true
+					continue
+				}
+				collide := false
+				var fresh []refactorEdit
+				for _, e := range edits {
+					if e.start < 0 || e.end > len(content) || e.start > e.end {
+						collide = true
+						break
+					}
+					dup := false
+					for _, a := range accepted {
+						if a.start == e.start && a.end == e.end && string(a.text) == string(e.text) {
+							dup = true // the same import edit
+						} else if e.start < a.end && a.start < e.end || e.start == e.end && a.start == a.end && e.start == a.start {
+							collide = true
+						}
+					}
+					if !dup {
+						fresh = append(fresh, e)
+					}
+				}
+				if collide {
+					continue // next round
+				}
+				accepted = append(accepted, fresh...)
+				log = append(log, what)
 			}
-			if !okApply {
-				log = append(log, fmt.Sprintf("%s at %s: edit out of range", s.key, c.pos(s.call.Pos())))
-				base[s.key] = true
+			if len(accepted) == 0 {
 				continue
+			}
+			sort.Slice(accepted, func(i, j int) bool { return accepted[i].start > accepted[j].start })
+			out := content
+			for _, e := range accepted {
+				out = append(append(append([]byte{}, out[:e.start]...), e.text...), out[e.end:]...)
 			}
 			cur[fname] = out
 			progressed = true
 			changed = true
-			log = append(log, fmt.Sprintf("inlined %s at %s (literalized=%v)", s.key, c.pos(s.call.Pos()), res.Literalized))
 		}
 		if !progressed {
 			break
